@@ -118,9 +118,9 @@ const COMMON_NAMES: [&str; 12] = [
     "Source", "Package", "Depends", "Description", "Maintainer", "X-Foo", "Version", "Files",
     "Architecture", "a", "Z9", "Build-Depends",
 ];
-const WORDS: [&str; 14] = [
+const WORDS: [&str; 17] = [
     "foo", "bar (>= 1.0)", "lib-x,", "a:b", "#not-comment", "x # y", "http://e.org/", ".", "é漢😀",
-    "tab\there", "trail  ", "\u{2028}sep", "\u{85}nel", "-dash",
+    "tab\there", "trail  ", "\u{2028}sep", "\u{85}nel", "-dash", ":colon-first", "::", "\u{3000}wide",
 ];
 pub const COLON_WS: [&str; 5] = ["", " ", "  ", "\t", " \t"];
 pub const INDENTS: [&str; 4] = [" ", "\t", "   ", " \t"];
